@@ -38,11 +38,34 @@ type Prog struct {
 	lockEngine *LockEngine
 	LoadS      float64
 
+	InlineSteps []inlineStep // non-empty: this is the helper-inlined view (inlineview.go)
+
 	closureSites map[*ssa.Function][]*ssa.MakeClosure
 	callersOf    map[*ssa.Function][]ssa.CallInstruction // static + closure-resolved call sites
 }
 
-func loadProg(repo string) (*Prog, error) {
+func loadProg(repo string) (*Prog, error) { return loadProgOverlay(repo, nil) }
+
+func (p *Prog) relFile(name string) string {
+	if r, err := filepath.Rel(p.RepoDir, name); err == nil {
+		return r
+	}
+	return name
+}
+
+func (p *Prog) viewDescription() interface{} {
+	if len(p.InlineSteps) == 0 {
+		return "source tree as written"
+	}
+	var l []string
+	for _, st := range p.InlineSteps {
+		l = append(l, fmt.Sprintf("%s %s into %s (%s)", st.Kind, st.Callee, st.Caller, p.relFile(st.File)))
+	}
+	return map[string]interface{}{"kind": "helper-inlined in-memory view (functions not on the reference list inlined into their callers by the vendored x/tools inliner; nothing written, nothing executed)", "transformations": l}
+}
+
+// loadProgOverlay loads the tree with some files replaced in memory.
+func loadProgOverlay(repo string, overlay map[string][]byte) (*Prog, error) {
 	t0 := time.Now()
 	abs, err := filepath.Abs(repo)
 	if err != nil {
@@ -59,10 +82,11 @@ func loadProg(repo string) (*Prog, error) {
 	env = append(env, "GOFLAGS=-mod=readonly", "GOWORK=off", "GOPROXY=off", "GOSUMDB=off", "GOTOOLCHAIN=local",
 		"GOOS=linux", "GOARCH=amd64", "CGO_ENABLED=0")
 	cfg := &packages.Config{
-		Mode:  packages.LoadAllSyntax,
-		Dir:   abs,
-		Env:   env,
-		Tests: false,
+		Mode:    packages.LoadAllSyntax,
+		Dir:     abs,
+		Env:     env,
+		Tests:   false,
+		Overlay: overlay,
 	}
 	initial, err := packages.Load(cfg, "./...")
 	if err != nil {
@@ -233,6 +257,19 @@ func (p *Prog) FnsIn(rels ...string) []*ssa.Function {
 			}
 		}
 	}
+	return out
+}
+
+// PkgInits: the synthetic package initialisers of the repository's packages
+// (initialisers of package-level variables run there).
+func (p *Prog) PkgInits() []*ssa.Function {
+	var out []*ssa.Function
+	for sp := range p.pkgRel {
+		if f := sp.Func("init"); f != nil && f.Blocks != nil {
+			out = append(out, f)
+		}
+	}
+	sort.Slice(out, func(i, j int) bool { return out[i].Pkg.Pkg.Path() < out[j].Pkg.Pkg.Path() })
 	return out
 }
 
